@@ -5,6 +5,8 @@ import (
 	"context"
 	"fmt"
 	"io"
+	"log/slog"
+	"os"
 	"runtime/debug"
 	"strconv"
 	"strings"
@@ -28,7 +30,7 @@ func QuietLogs(w io.Writer) {
 	if w == nil {
 		w = io.Discard
 	}
-	_, _ = logging.Init(logging.LevelError, logging.EncodingLogfmt, logging.WithOutput(w), logging.WithErrorOutput(w))
+	_, _ = logging.Init(logLevel(), logging.EncodingLogfmt, logging.WithOutput(w), logging.WithErrorOutput(w))
 	logSet = true
 }
 
@@ -77,4 +79,11 @@ func QueryType(attrs []string, time, iface bool) string {
 	}
 	parts = append(parts, attrs...)
 	return strings.Join(parts, ",")
+}
+
+func logLevel() slog.Level {
+	if os.Getenv("VERIF_DEBUG_LOG") != "" {
+		return logging.LevelDebug
+	}
+	return logging.LevelError
 }
